@@ -280,6 +280,46 @@ def validate_cases(ctx, cases, samples=None, sample_ids=(), only_clauses=None):
     return calls
 
 
+def reload_stage(ctx, rng, first_id):
+    """ "the numbers shown on a feature always identify that same feature" - also once the record has been written and read
+        again: records as real annotated records (harness/persist.py) through GenBank text, JSON and the results file; of
+        the verdicts of Persist_Trace only the numbering clauses are kept here (the rest is C10's) """
+    from .. import persist  # pylint: disable=import-outside-toplevel
+    from ..common import CPUS, chunks, pmap  # pylint: disable=import-outside-toplevel
+    from . import c10  # pylint: disable=import-outside-toplevel
+    cases = []
+    while len(cases) < (150 if ctx.quick else 4000):
+        uni = persist.random_universe(rng)
+        same = {}
+        for area in uni["areas"]:
+            same.setdefault((area["kind"], str(area["extent"])), []).append(area)
+        if len(cases) % 2 and not any(len(group) > 1 for group in same.values()):
+            continue      # every other record holds areas of one kind with equal coordinates
+        cases.append({"id": first_id + len(cases), "uni": uni, "hist": persist.pipeline_history(rng, uni), "seed": 2000 + ctx.seed,
+                      "sampled": True})
+    events = [ev for sub in pmap(c10.observe_many, chunks(cases, CPUS * 2)) for ev in sub]
+    by_id, shipped = {}, []
+    for case, event in zip(cases, events):
+        if event["build"]:
+            continue
+        event.pop("build")
+        by_id[case["id"]] = {"op": "reload", "input": {"uni": case["uni"], "hist": case["hist"], "seed": case["seed"]},
+                             "call": persist.call_text(case) + "; persist.roundtrip_genbank(record); persist.roundtrip_json(record)",
+                             "observed": {key: {"exc": event[key]["exc"]} for key in ("gb", "json", "file")},
+                             "features": persist.features(case["uni"], case["hist"]), "sampled": True}
+        shipped.append(event)
+    before = len(ctx.failures)
+    ctx.validate("Persist_Trace", shipped, by_id, min_per_shard=40)
+    kept = []
+    for failure in ctx.failures[before:]:
+        if failure["clause"].endswith("_numbering"):
+            failure["op"] = "reload_" + failure["op"]
+            kept.append(failure)
+    ctx.failures[before:] = kept
+    ctx.notes["reloaded_records"] = len(shipped)
+    return len(shipped)
+
+
 def run(ctx):
     rng = random.Random(ctx.seed)
     depth = 4 if ctx.quick else 6
@@ -347,6 +387,7 @@ def run(ctx):
     # the order the numbers are given in: comparison laws and insertion-order independence on real features (spec/Order.tla)
     from .. import order  # pylint: disable=import-outside-toplevel
     calls += order.stage(ctx, rng, 2 * 10 ** 8)
+    calls += reload_stage(ctx, rng, 3 * 10 ** 8)
     ctx.evaluations = calls
     for ident in sorted(samples):
         ctx.sample(samples[ident], limit=4)
@@ -366,6 +407,14 @@ def run(ctx):
 
 
 def replay(ctx, record):
+    if record["op"].startswith("reload_"):
+        from . import c10  # pylint: disable=import-outside-toplevel
+        case = {"id": 0, "uni": record["input"]["uni"], "hist": record["input"]["hist"], "seed": record["input"].get("seed", 0)}
+        event = c10.observe(case)
+        event.pop("build")
+        ctx.validate("Persist_Trace", [event], {0: {"op": "reload", "input": record["input"]}})
+        ctx.failures = [dict(f, op="reload_" + f["op"]) for f in ctx.failures if f["clause"] == record["clause"]]
+        return
     if record["op"].startswith(("compare_", "insert_")):
         from .. import order  # pylint: disable=import-outside-toplevel
         order.replay(ctx, record)
